@@ -243,13 +243,20 @@ func paramType(p Param) reflect.Type {
 		return d.RT
 	}
 	if p.isObj() {
-		fields := []reflect.StructField{{Name: "In", Type: inType, Anonymous: true}}
+		var fields []reflect.StructField
+		at := embedPos(p.EmbedAt, len(p.Obj))
 		for i, q := range p.Obj {
+			if i == at {
+				fields = append(fields, reflect.StructField{Name: "In", Type: inType, Anonymous: true})
+			}
 			fields = append(fields, reflect.StructField{
 				Name: fmt.Sprintf("F%d", i),
 				Type: paramType(q),
 				Tag:  paramTag(q),
 			})
+		}
+		if at >= len(p.Obj) {
+			fields = append(fields, reflect.StructField{Name: "In", Type: inType, Anonymous: true})
 		}
 		return reflect.StructOf(fields)
 	}
@@ -270,13 +277,20 @@ func paramType(p Param) reflect.Type {
 
 func resultType(r Result) reflect.Type {
 	if r.isObj() {
-		fields := []reflect.StructField{{Name: "Out", Type: outType, Anonymous: true}}
+		var fields []reflect.StructField
+		at := embedPos(r.EmbedAt, len(r.Obj))
 		for i, q := range r.Obj {
+			if i == at {
+				fields = append(fields, reflect.StructField{Name: "Out", Type: outType, Anonymous: true})
+			}
 			fields = append(fields, reflect.StructField{
 				Name: fmt.Sprintf("F%d", i),
 				Type: resultType(q),
 				Tag:  resultTag(q),
 			})
+		}
+		if at >= len(r.Obj) {
+			fields = append(fields, reflect.StructField{Name: "Out", Type: outType, Anonymous: true})
 		}
 		return reflect.StructOf(fields)
 	}
@@ -293,6 +307,25 @@ func resultType(r Result) reflect.Type {
 		return reflect.SliceOf(t)
 	}
 	return t
+}
+
+// embedPos clips the position of the embedded In/Out marker.
+func embedPos(at, n int) int {
+	if at < 0 {
+		return 0
+	}
+	if at > n {
+		return n
+	}
+	return at
+}
+
+// fieldIdx: struct index of field i of an object whose marker sits at `at`.
+func fieldIdx(i, at int) int {
+	if i < at {
+		return i
+	}
+	return i + 1
 }
 
 func fnType(f *Fn) reflect.Type {
@@ -335,8 +368,9 @@ func decodeArg(p Param, v reflect.Value) Prov {
 	}
 	if p.isObj() {
 		pr := Prov{Kind: "obj"}
+		at := embedPos(p.EmbedAt, len(p.Obj))
 		for i, q := range p.Obj {
-			pr.Fields = append(pr.Fields, decodeArg(q, v.Field(i+1)))
+			pr.Fields = append(pr.Fields, decodeArg(q, v.Field(fieldIdx(i, at))))
 		}
 		return pr
 	}
@@ -379,8 +413,13 @@ func foreignTree(p Param) Prov {
 func (rt *RT) mkResult(f *Fn, exec int, r Result, t reflect.Type, slot string, toks *[]int64) reflect.Value {
 	if r.isObj() {
 		v := reflect.New(t).Elem()
+		at := embedPos(r.EmbedAt, len(r.Obj))
+		if f.Bank > 0 {
+			at = 0 // declared bank structs have the marker first
+		}
 		for i, q := range r.Obj {
-			v.Field(i + 1).Set(rt.mkResult(f, exec, q, t.Field(i+1).Type, fmt.Sprintf("%s.%d", slot, i), toks))
+			fi := fieldIdx(i, at)
+			v.Field(fi).Set(rt.mkResult(f, exec, q, t.Field(fi).Type, fmt.Sprintf("%s.%d", slot, i), toks))
 		}
 		return v
 	}
